@@ -60,25 +60,3 @@ Definition eval_emit (c : N * list N) : string :=
 Definition eval_client_rtu (c : list (list (list N) * fin)) : string :=
   show_list show_run " / " (client_connections true (reader_new KRtuResponse) c) ++ "|" ++
   show_list show_frames " / " (map (fun x => let '(s, f) := sched_stream (fst x) (snd x) in ref_rtu_frames Responses s f) c).
-
-(* the transmit side: (reply bytes, events) -> what the model of the server's write_reply has handed to the
-   transport and how the call stands | the Spec: the one serialisation of the reply, if the write completed *)
-From Rodbus Require Import Gen.WritePath Model.WritePath.
-Definition show_rresult (r : rresult) : string := match r with RDone => "done" | RParked => "parked" | RShutdown => "shutdown" end.
-Definition show_wresult (r : wresult) : string := match r with WDone => "done" | WParked => "parked" end.
-(* client = true: execute_request awaits the request write directly (Gen/WritePath.client_write_awaited_directly):
-   commands that arrive meanwhile stay in the queue, the write is PhysLayer::write on the transport *)
-Definition eval_write_reply (c : bool * list N * list wevent) : string :=
-  let '(client, data, evs) := c in
-  (if client
-   then let '(out, r) := phys_write LVerif data (flat_map (fun e => match e with Take k => [k] | Cmd _ => [] end) evs) in
-        show_bytes out ++ ":" ++ show_wresult r
-   else let '(out, r) := server_write_reply data evs in show_bytes out ++ ":" ++ show_rresult r)
-  ++ "|" ++ show_bytes data.
-
-(* the client's request write with the request timeout: (frame, events) -> emitted : how the call ends | the frame *)
-Definition show_cresult (r : cresult) : string := match r with CDone => "done" | CParked => "parked" | CTimedOut => "Io(TimedOut)" end.
-Definition eval_client_write (c : list N * list cevent) : string :=
-  let '(data, evs) := c in
-  let '(out, r) := client_request_write data evs in
-  show_bytes out ++ ":" ++ show_cresult r ++ "|" ++ show_bytes data.
